@@ -12,6 +12,7 @@ import RSV.Model.Frames
 import RSV.Model.Kernels
 import RSV.Model.Memo
 import RSV.Model.Bitfield
+import RSV.Model.BitfieldImpl
 /-! line-protocol driver: one op per input line, one result line per op (core only) -/
 namespace Drv
 open RSV RSV.Model
@@ -221,7 +222,7 @@ def opRec (args : List String) : String :=
               if present i || filled.getD i.val false then hashOpt (some all[i.val]!) else "-")
         -- L1: the algorithm itself (inversion of the first d present rows), small cases only
         let l1 : String :=
-          if d ≤ 24 && size ≤ 128 then
+          if d ≤ 24 && d + p ≤ 32 && size ≤ 128 then
             let sh : Fin (d + p) → Option (Shard GF256 size) := fun i =>
               if present i then some (shardOfBytes all[i.val]! size) else none
             match reconstruct A sh mode with
@@ -532,24 +533,33 @@ def opTree (args : List String) : String :=
   | [] => "bad-op"
 
 -- bfneed <8|16> <positions> <mips>
+-- result from the L0 predicate; `l1=` compares the L1 word-level model (`BitfieldImpl`: set / prepare / isNeeded)
 def opBfNeed (args : List String) : String :=
   match args with
   | [gf, poss, mipss] =>
     let bits := if gf == "8" then 8 else 16
     let pos := parseList poss
-    let outs := (parseList mipss).map fun m =>
+    let bf8 := (BitfieldImpl.BF8.ofList pos).prepare
+    let bf16 := if bits == 16 then (BitfieldImpl.BF16.ofList pos).prepare else BitfieldImpl.BF16.empty
+    let res := (parseList mipss).map fun m =>
       let step := 1 <<< (min m bits)
       let n := (1 <<< bits) / step
-      let (cnt, h) := (List.range n).foldl (fun (acc : Nat × UInt64) k =>
+      let (cnt, h, ok) := (List.range n).foldl (fun (acc : Nat × UInt64 × Bool) k =>
         let v := Bitfield.needed bits pos m (k * step)
-        (if v then acc.1 + 1 else acc.1, fnvStep acc.2 (if v then 1 else 0))) (0, fnvInit)
-      s!"{m}:{cnt}:{hex64 h}"
-    " ".intercalate outs
+        let v1 := if bits == 8 then bf8.isNeeded m (k * step) else bf16.isNeeded m (k * step)
+        (if v then acc.1 + 1 else acc.1, fnvStep acc.2.1 (if v then 1 else 0), acc.2.2 && (v == v1))) (0, fnvInit, true)
+      (s!"{m}:{cnt}:{hex64 h}", ok)
+    let ok := res.all (·.2)
+    " ".intercalate (res.map (·.1)) ++ s!" | l1={if ok then 1 else 0}"
   | _ => "bad-op"
 
 def opBfKey (args : List String) : String :=
   match args with
-  | [poss] => (Bitfield.cacheKey (parseList poss)).foldl (fun s b => s ++ hexByte b) ""
+  | [poss] =>
+    let pos := parseList poss
+    let k0 := Bitfield.cacheKey pos
+    let k1 := (BitfieldImpl.BF8.ofList pos).cacheID
+    k0.foldl (fun s b => s ++ hexByte b) "" ++ s!" | l1={if k0 == k1 then 1 else 0}"
   | _ => "bad-op"
 
 def hexVal (c : Char) : Nat :=
